@@ -12,18 +12,18 @@ use std::sync::Arc;
 
 type G = Graph<i64, i64>;
 
-fn map_obs(o: &mut Out, kind: i64, m: &HashMap<i64, f64>) {
-    let mut kv: Vec<(i64, f64)> = m.iter().map(|(k, v)| (*k, *v)).collect();
+fn map_obs(o: &mut Out, kind: i64, m: &HashMap<i64, f64>, f: f64) {
+    let mut kv: Vec<(i64, f64)> = m.iter().map(|(k, v)| (*k, *v * f)).collect();
     kv.sort_by(|a, b| a.0.cmp(&b.0));
     let rows: Vec<Vec<i64>> = kv.iter().map(|(k, _)| vec![*k]).collect();
     let fl: Vec<f64> = kv.iter().map(|(_, v)| *v).collect();
     o.obs(kind, &rows, &fl);
 }
 
-fn result_obs(o: &mut Out, kind: i64, r: &Option<Result<HashMap<i64, f64>, Error>>) -> bool {
+fn result_obs(o: &mut Out, kind: i64, r: &Option<Result<HashMap<i64, f64>, Error>>, f: f64) -> bool {
     o.obs(1, &[vec![res_code(r)]], &[]);
     if let Some(Ok(m)) = r {
-        map_obs(o, kind, m);
+        map_obs(o, kind, m, f);
         true
     } else {
         false
@@ -70,7 +70,7 @@ pub fn run_case(lines: &[Vec<String>], o: &mut Out) {
                     "bc" => {
                         let (weighted, normalized, withdef) = (t.i() != 0, t.i() != 0, t.i() != 0);
                         let r = guard(|| betweenness::betweenness_centrality(gr, weighted, normalized));
-                        if result_obs(o, 1050, &r) {
+                        if result_obs(o, 1050, &r, 1.0) {
                             // kinds 51/53/52 are flags computed by the model (tie independence, adjacency
                             // shape assumed by the stage theorems, model = definition); the implementation side is the constant 1
                             o.obs(51, &[vec![1]], &[]);
@@ -83,7 +83,8 @@ pub fn run_case(lines: &[Vec<String>], o: &mut Out) {
                     "cc" => {
                         let (weighted, wf) = (t.i() != 0, t.i() != 0);
                         let r = guard(|| closeness::closeness_centrality(gr, weighted, wf));
-                        if result_obs(o, 1060, &r) {
+                        // weighted closeness is (r-1)/sum of distances: it carries 1/scale (obs::WSCALE)
+                        if result_obs(o, 1060, &r, if weighted { wfactor() } else { 1.0 }) {
                             o.obs(61, &[vec![1]], &[]);
                             o.obs(62, &[vec![1]], &[]);
                             o.obs(63, &[vec![1]], &[]);
@@ -96,7 +97,7 @@ pub fn run_case(lines: &[Vec<String>], o: &mut Out) {
                         let max_iter = if mi < 0 { None } else { Some(mi as u32) };
                         let tol = if te == 0 { None } else { Some(format!("1e-{}", te).parse::<f64>().unwrap()) };
                         let r = guard(|| eigenvector::eigenvector_centrality(gr, weighted, max_iter, tol));
-                        result_obs(o, 1070, &r);
+                        result_obs(o, 1070, &r, 1.0);
                     }
                     x => {
                         eprintln!("unknown call {}", x);
